@@ -607,13 +607,22 @@ NextRecs(e) ==
     [] e.t = "reset" -> <<>>
     [] OTHER -> RS
 
-Init == l = 1 /\ recs = <<>> /\ nbad = 0
+\* vacuity accounting: TLC register 7 maps "property/check" to the number of events in which that check was
+\* evaluated (single worker; printed by the postcondition, summed over the chunks by the orchestrator)
+CountReg == 7
+AddCounts(cnt, cs) ==
+  LET ks == {cs[k].p \o "/" \o cs[k].c : k \in 1..Len(cs)} IN
+  [x \in (DOMAIN cnt) \cup ks |-> (IF x \in DOMAIN cnt THEN cnt[x] ELSE 0) + (IF x \in ks THEN 1 ELSE 0)]
+
+Init == l = 1 /\ recs = <<>> /\ nbad = 0 /\ TLCSet(CountReg, <<>>)
 
 Next ==
   /\ l <= Len(Rec)
   /\ LET e == Rec[l]
-         f == Fails(ChecksOf(e))
-     IN /\ IF f = <<>> THEN nbad' = nbad
+         cs == ChecksOf(e)
+         f == Fails(cs)
+     IN /\ TLCSet(CountReg, AddCounts(TLCGet(CountReg), cs))
+        /\ IF f = <<>> THEN nbad' = nbad
            ELSE /\ nbad' = nbad + 1
                 /\ PrintT("BAD " \o ToJson([l |-> l, sid |-> e.sid, i |-> e.i, t |-> e.t,
                                             fails |-> [k \in 1..Len(f) |-> [p |-> f[k].p, c |-> f[k].c]]]))
@@ -625,6 +634,7 @@ Spec == Init /\ [][Next]_vars
 \* every event was consumed (the verdicts are in the BAD lines)
 Consumed ==
   LET d == TLCGet("stats").diameter IN
+  /\ PrintT("COUNTS " \o ToJson(TLCGet(CountReg)))
   /\ PrintT("DONE " \o ToString(d - 1) \o " of " \o ToString(Len(Rec)))
   /\ d - 1 = Len(Rec)
 
